@@ -54,6 +54,17 @@ def grpDispatch (op : String) (a : List Str) : Option String :=
   | "group.parse_format", [decl, value, fmt, fmt2] =>
     let d := readDecl decl
     some (showR esc (do let g ← Group.parse d value fmt; Group.format d g fmt2))
+  | "obj.cmp", [kind, v1, f1, v2, f2] =>
+    (match readMember ("x:".toList ++ kind) with
+     | none => none
+     | some m =>
+       some (showR (fun (t : (Bool × Bool × Bool) × Bool) =>
+           s!"{showBool t.1.1},{showBool t.1.2.1},{showBool t.1.2.2},{showBool t.2}")
+         (do let a ← Engine.parse m.cls v1 (readOpt f1) false
+             let b ← Engine.parse m.cls v2 (readOpt f2) false
+             let c ← Group.cmpMember m a b
+             let h ← Group.hashEq m a b
+             pure (c, h))))
   | "group.cmp", [decl, v1, f1, v2, f2] =>
     let d := readDecl decl
     some (showR (fun (t : Bool × Bool × Bool) => s!"{showBool t.1},{showBool t.2.1},{showBool t.2.2}")
